@@ -27,6 +27,18 @@ TYPE_GRAPHS = {
     'self-nonnull': 'type A0 = NonNullable<A0>;\n', 'three-cycle': 'type A0 = A1;\ntype A1 = A2;\ntype A2 = A0;\n', 'self-intersection': 'type A0 = {{ a: string }} & A0;\n',
     'key-cycle': "type K0 = K0;\ninterface P0 {{ a: string }}\ntype A0 = Pick<P0, K0>;\n",
 }
+EDGE_DECLS = """interface Dict0 {{ [key: string]: number }}
+interface List0 {{ [index: number]: string; length: number }}
+interface Rec0 {{ a: string; b?: number; m(): void }}
+interface Empty0 {{}}
+type AlDict = {{ [key: string]: number }};
+type AlRec = {{ a: string }};
+type Keys0 = 'zz' | 'yy';
+"""
+EDGE_TYPES = ["Dict0['foo']", 'Dict0[string]', 'Dict0[number]', 'List0[number]', "List0['length']", "Rec0['zz']", 'Rec0[number]', "Rec0['zz' | 'yy']", 'Rec0[Keys0]', "Empty0['a']", 'Empty0[string]',
+              "AlDict['foo']", "AlRec['zz']", 'AlRec[number]', "{{ a: string }}['zz']", '{{}}[string]', "{{ [k: string]: number }}['x']", '[][0]', '[string][5]', '[string][-1]', '[string, number][1.5]', 'string[][0]',
+              "Rec0['m']", "Rec0['a']['length']", "Rec0['zz']['yy']", 'Array<string>[number]', 'Array[number]', "Pick<Rec0, never>['a']", "Rec0[any]", "Rec0[keyof Rec0]", "Rec0['a' | number]",
+              'Partial<Empty0>', "Pick<Rec0, 'zz'>", 'Omit<Rec0, string>', 'Required<{{}}>', 'Empty0 & Empty0', '(Empty0)', "Record<never, never>['a']"]
 POSITIONS = {'props': '(props: A0) => () => null', 'prop-type': '(props: {{ p: A0 }}) => () => null', 'emits': '(props: {{ a: string }}, ctx: SetupContext<A0>) => () => null',
              'emit-key': "(props: {{ a: string }}, ctx: SetupContext<(e: A0) => void>) => () => null"}
 
@@ -38,6 +50,11 @@ def make_skeleton(spec):
         opts = {'optimize': 'sym', 'merge_props': 'sym'}
         sid = 'c08#value|%s|%s|%s' % (spec['host'], spec['dir'], spec['value'])
         return Skeleton(sid, src, leaves, opts, meta={'family': 'c08/value'}, variants=[{}])
+    if spec['kind'] == 'edge':
+        ts = spec['types']
+        src = "import {{ defineComponent, type SetupContext }} from 'vue';\n" + EDGE_DECLS + \
+              'export default defineComponent((props: {{ %s }}, ctx: SetupContext<%s>) => () => null);\n' % ('; '.join('p%d: %s' % (i, t) for i, t in enumerate(ts)), spec.get('emits', '{{}}'))
+        return Skeleton('c08#edge|%s|%s' % ('|'.join(ts)[:60], spec.get('emits', '')[:20]), src, leaves, {'resolve_type': True}, tsx=True, meta={'family': 'c08/edge'})
     if spec['kind'] == 'graph':
         decls = TYPE_GRAPHS[spec['graph']]
         src = "import {{ defineComponent, type SetupContext }} from 'vue';\n" + decls + 'export default defineComponent(%s);\n' % POSITIONS[spec['pos']]
@@ -103,6 +120,10 @@ def jobs(tier):
                 if tier == 'quick' and h == 'input' and d not in ('v-model', 'v-models', 'vModel', 'v-model:arg_m'):
                     continue
                 out.append({'kind': 'value', 'host': h, 'dir': d, 'value': v})
+    for t in EDGE_TYPES:
+        out.append({'kind': 'edge', 'types': [t]})
+        out.append({'kind': 'edge', 'types': ['string'], 'emits': t})
+        out.append({'kind': 'edge', 'types': ['string'], 'emits': '(e: %s) => void' % t})
     for g in TYPE_GRAPHS:
         for p in POSITIONS:
             out.append({'kind': 'graph', 'graph': g, 'pos': p})
@@ -116,6 +137,8 @@ def classify(v, detail):
     sk = v['skeleton']
     if v['kind'] in ('steplimit',) or (v['kind'] == 'panic' and 'graph' in sk):
         return 'type-resolution-does-not-terminate-on-cyclic-declarations'
+    if v['kind'] == 'panic' and '#edge' in sk:
+        return 'panic:type-resolution:' + re.sub(r'[^\w]+', '-', str(v.get('obligation') or v.get('detail') or ''))[:40]
     if v['kind'] == 'panic':
         m = re.match(r'c08#value\|(\w+)\|([^|]*)\|([\w-]+)', sk)
         d = m.group(2) if m else '?'
